@@ -263,6 +263,7 @@ fn writer_body(spec: Spec) -> BoxedWriter {
 fn make_router(kind: &str, opts: StreamOpts) -> Option<Router> {
     let r = Router::new();
     Some(match kind {
+        "peer" => r.with_erased_handler("/_svs/open", Arc::new(PeerOpen)).with_erased_handler("/_svs/next", Arc::new(PeerNext)).with_erased_handler("/_svs/cancel", Arc::new(PeerCancel)),
         "reader" => r.with_reader_stream(|res: &str| spec_of(res).map(|spec| ScriptedReader { spec, pos: 0, calls: 0 }), opts),
         "value" => r.with_value_stream(|res: &str| spec_of(res).and_then(|s| s.value), opts),
         "typed:u8" => r.with_typed_value_stream::<u8, _>(|res: &str| spec_of(res).and_then(|s| s.typed_u8).map(|v| (*v).clone()), opts),
@@ -2106,6 +2107,186 @@ fn exec_hl(sv: &mut Servers, out: &mut Out, idx: &str, p: &Params, client: &str,
 }
 
 // ------------------------------------------------------------------------------------------
+// scripted peer: a router whose `/_svs/*` handlers answer from a script — ANY list of answers (chunks with any
+// query bytes, every error code, a wrong version / compression tag) reaches the crate's pullers
+// ------------------------------------------------------------------------------------------
+#[derive(Clone, Debug)]
+enum PeerResp {
+    Chunk(usize, Vec<u8>),
+    Error(u32),
+}
+#[derive(Clone, Debug)]
+struct PeerScript {
+    version: u8,
+    compression: u8,
+    format: u16,
+    resps: Vec<PeerResp>,
+}
+fn peer_scripts() -> &'static Mutex<HashMap<String, PeerScript>> {
+    static S: OnceLock<Mutex<HashMap<String, PeerScript>>> = OnceLock::new();
+    S.get_or_init(|| Mutex::new(HashMap::new()))
+}
+fn peer_streams() -> &'static Mutex<HashMap<u64, (Vec<PeerResp>, usize)>> {
+    static S: OnceLock<Mutex<HashMap<u64, (Vec<PeerResp>, usize)>>> = OnceLock::new();
+    S.get_or_init(|| Mutex::new(HashMap::new()))
+}
+fn code_of(n: u32) -> repe::ErrorCode {
+    repe::ErrorCode::try_from(n).unwrap_or(repe::ErrorCode::InternalError)
+}
+struct PeerOpen;
+struct PeerNext;
+struct PeerCancel;
+static PEER_ID: AtomicU64 = AtomicU64::new(1);
+impl repe::server::HandlerErased for PeerOpen {
+    fn handle(&self, req: &repe::Message) -> Result<repe::Message, repe::RepeError> {
+        let o: OpenRequest = beve::from_slice(&req.body).map_err(|_| repe::RepeError::ServerError { code: repe::ErrorCode::InvalidBody, message: "open".into() })?;
+        let Some(sc) = peer_scripts().lock().unwrap().get(&o.resource).cloned() else {
+            return Err(repe::RepeError::ServerError { code: repe::ErrorCode::MethodNotFound, message: "no script".into() });
+        };
+        let id = PEER_ID.fetch_add(1, Ordering::Relaxed);
+        peer_streams().lock().unwrap().insert(id, (sc.resps.clone(), 0));
+        let body = beve::to_vec(&OpenResponse { version: sc.version, stream_id: id, format: sc.format, compression: sc.compression }).unwrap();
+        Ok(repe::Message::builder().id(req.header.id).body_bytes(body).body_format_code(1).build())
+    }
+}
+impl repe::server::HandlerErased for PeerNext {
+    fn handle(&self, req: &repe::Message) -> Result<repe::Message, repe::RepeError> {
+        let n: NextRequest = beve::from_slice(&req.body).map_err(|_| repe::RepeError::ServerError { code: repe::ErrorCode::InvalidBody, message: "next".into() })?;
+        let mut t = peer_streams().lock().unwrap();
+        let Some((resps, pos)) = t.get_mut(&n.stream_id) else {
+            return Err(repe::RepeError::ServerError { code: repe::ErrorCode::InvalidQuery, message: "unknown".into() });
+        };
+        let r = resps.get(*pos).cloned();
+        *pos += 1;
+        match r {
+            None => Err(repe::RepeError::ServerError { code: repe::ErrorCode::InvalidQuery, message: "script exhausted".into() }),
+            Some(PeerResp::Error(c)) => Err(repe::RepeError::ServerError { code: code_of(c), message: "scripted".into() }),
+            Some(PeerResp::Chunk(len, q)) => Ok(repe::Message::builder().id(req.header.id).query_format_code(0).query_bytes(q).body_format_code(0).body_bytes(pat(7, *pos, len)).build()),
+        }
+    }
+}
+impl repe::server::HandlerErased for PeerCancel {
+    fn handle(&self, req: &repe::Message) -> Result<repe::Message, repe::RepeError> {
+        if let Ok(c) = beve::from_slice::<CancelRequest>(&req.body) {
+            peer_streams().lock().unwrap().remove(&c.stream_id);
+        }
+        Ok(repe::Message::builder().id(req.header.id).body_bytes(beve::to_vec(&true).unwrap()).body_format_code(1).build())
+    }
+}
+
+fn parse_peer(open: &str, resps: &str) -> Option<PeerScript> {
+    let mut sc = PeerScript { version: 1, compression: 0, format: 0, resps: vec![] };
+    for part in open.split('.') {
+        let (k, v) = part.split_at(1);
+        match k { "v" => sc.version = v.parse().ok()?, "z" => sc.compression = v.parse().ok()?, "f" => sc.format = v.parse().ok()?, _ => return None }
+    }
+    if resps != "-" {
+        for t in resps.split(',') {
+            if let Some(c) = t.strip_prefix('e') {
+                sc.resps.push(PeerResp::Error(c.parse().ok()?));
+            } else {
+                let (l, q) = t.strip_prefix('c')?.split_once('q')?;
+                sc.resps.push(PeerResp::Chunk(l.parse().ok()?, unhex(q)?));
+            }
+        }
+    }
+    Some(sc)
+}
+
+fn exec_peer(sv: &mut Servers, out: &mut Out, idx: &str, srv: &str, client: &str, puller: &str, open: &str, resps: &str) -> Option<RawResult> {
+    let sc = parse_peer(open, resps)?;
+    let op = format!("peer {idx} {srv} {client} {puller} {open} {resps}");
+    out.begin(&op);
+    let addr = sv.addr(srv, "peer", 0, 1, 0, 3)?;
+    let resource = format!("peer-{}", RES_COUNTER.fetch_add(1, Ordering::Relaxed));
+    peer_scripts().lock().unwrap().insert(resource.clone(), sc.clone());
+    // the harness's own reading of the script: bytes up to the first answer whose query starts with 1, unless an error (or the end of
+    // the script, which answers an error) comes first; a bad version / compression tag makes every puller refuse
+    let mut expect: Option<Vec<u8>> = None;
+    if sc.version == 1 && sc.compression == 0 {
+        let mut acc = Vec::new();
+        for (j, r) in sc.resps.iter().enumerate() {
+            match r {
+                PeerResp::Error(_) => break,
+                PeerResp::Chunk(len, q) => {
+                    acc.extend(pat(7, j + 1, *len));
+                    if q.first() == Some(&1) { expect = Some(acc.clone()); break; }
+                }
+            }
+        }
+    }
+    let res = resource.clone();
+    let pl = puller.to_string();
+    let budget = WATCHDOG + Duration::from_secs(10);
+    fn all(reader: &mut dyn Read, tiny: bool) -> Result<Vec<u8>, repe::RepeError> {
+        let mut got = Vec::new();
+        if tiny {
+            let mut one = [0u8; 1];
+            while got.len() < 40 {
+                if reader.read(&mut one)? == 0 { return Ok(got); }
+                got.push(one[0]);
+            }
+        }
+        reader.read_to_end(&mut got)?;
+        Ok(got)
+    }
+    let result: HlOut = match client {
+        "sync" => {
+            let (tx, rx) = std::sync::mpsc::channel();
+            std::thread::spawn(move || {
+                let r = (|| -> Result<Vec<u8>, repe::RepeError> {
+                    let c = repe::Client::connect(addr)?;
+                    match pl.as_str() {
+                        "vec" => repe::pull_to_vec(&c, &res),
+                        _ => { let tiny = pl == "c1"; repe::pull_consume(&c, &res, move |r| all(r, tiny)) }
+                    }
+                })();
+                let _ = tx.send(match r { Ok(b) => HlOut::Bytes(b), Err(e) => HlOut::Err(err_class(&e)) });
+            });
+            rx.recv_timeout(budget).unwrap_or(HlOut::Timeout)
+        }
+        _ => {
+            let is_ws = client == "wsc";
+            sv.rt.block_on(async move {
+                let fut = async {
+                    macro_rules! go { ($c:expr) => {{ let c = $c; let r = match pl.as_str() {
+                        "vec" => repe::pull_to_vec_async(&c, &res).await,
+                        _ => { let tiny = pl == "c1"; repe::pull_consume_async(&c, &res, move |mut r| all(&mut r, tiny)).await }
+                    }; match r { Ok(b) => HlOut::Bytes(b), Err(e) => HlOut::Err(err_class(&e)) } }}; }
+                    if is_ws {
+                        match repe::WebSocketClient::connect(&format!("ws://{}/repe", addr)).await { Ok(c) => go!(c), Err(e) => HlOut::Err(format!("connect:{e}")) }
+                    } else {
+                        match repe::AsyncClient::connect(addr).await { Ok(c) => go!(c), Err(e) => HlOut::Err(format!("connect:{e}")) }
+                    }
+                };
+                tokio::time::timeout(budget, fut).await.unwrap_or(HlOut::Timeout)
+            })
+        }
+    };
+    peer_scripts().lock().unwrap().remove(&resource);
+    let mut failures = Vec::new();
+    let obs = match (&result, &expect) {
+        (HlOut::Bytes(b), Some(e)) => {
+            if b != e { failures.push(("svs.peer.bytes_mismatch".to_string(), format!("{puller} over {client}: got {} bytes, the answers up to the end marker carry {}; first difference {:?}", b.len(), e.len(), first_diff(b, e)))); }
+            format!("{idx} ok {} {}", b.len(), fnv(b))
+        }
+        (HlOut::Bytes(b), None) => {
+            failures.push(("svs.peer.error_swallowed".to_string(), format!("{puller} over {client}: the peer answered an error (or a bad tag) before any end marker, yet the puller returned Ok with {} bytes", b.len())));
+            format!("{idx} ok {} {}", b.len(), fnv(b))
+        }
+        (HlOut::Err(e), Some(_)) => {
+            if e.starts_with("connect") { failures.push(("svs.hl.connect".to_string(), e.clone())); }
+            else { failures.push(("svs.peer.unexpected_error".to_string(), format!("{puller} over {client}: every answer up to the end marker was a chunk, yet the puller returned {e}"))); }
+            format!("{idx} err")
+        }
+        (HlOut::Err(e), None) => { if e.starts_with("connect") { failures.push(("svs.hl.connect".to_string(), e.clone())); } format!("{idx} err") }
+        (HlOut::Timeout, _) => { failures.push(("svs.peer.call_never_returned".to_string(), format!("{puller} over {client} did not return within {budget:?}"))); format!("{idx} timeout") }
+        (HlOut::ValueOk(_), _) => format!("{idx} ?"),
+    };
+    Some(RawResult { op, obs, nontrivial: sc.resps.len() >= 2, failures, skip: false, pool: None })
+}
+
+// ------------------------------------------------------------------------------------------
 // entry points of the anchored file, mechanically
 // ------------------------------------------------------------------------------------------
 /// `pub fn` / `pub async fn` / trait methods of `value_stream.rs` this family calls (directly, by name).
@@ -2292,6 +2473,16 @@ impl Runner {
             None => self.out.count("svs.generator.unbuildable"),
         }
     }
+    fn peer(&mut self, srv: &str, client: &str, puller: &str, open: &str, resps: &str) {
+        self.n += 1;
+        let idx = format!("{}", self.n);
+        self.out.count("svs.op.peer");
+        self.out.count(&format!("svs.peer.{client}.{puller}"));
+        match exec_peer(&mut self.sv, &mut self.out, &idx, srv, client, puller, open, resps) {
+            Some(r) => self.finish_case(r),
+            None => self.out.count("svs.generator.unbuildable"),
+        }
+    }
     fn conc(&mut self, srv: &str, chunk: usize, depth: usize, n: usize, rounds: usize, l: usize) {
         self.n += 1;
         let idx = format!("{}", self.n);
@@ -2457,6 +2648,7 @@ fn main() {
                         run.cnext(&p, w[5].parse::<usize>().unwrap_or(2).clamp(1, 16));
                     }
                 }
+                Some("peer") if w.len() == 7 => run.peer(w[2], w[3], w[4], w[5], w[6]),
                 Some("many") if w.len() == 7 => {
                     let f: Vec<usize> = w[3..7].iter().filter_map(|x| x.parse().ok()).collect();
                     if f.len() == 4 && f[0] >= 1 && f[2] <= 5000 { run.many(w[2], f[0], f[1], f[2], f[3]); }
@@ -2792,6 +2984,34 @@ fn main() {
                     run.hl(&p, "wsc", puller);
                 }
             }
+        }
+    }
+    // (X) scripted peer: arbitrary answer lists into the crate's pullers — every error code at every position, query bytes
+    // 0/1/2/255/empty/two bytes, empty bodies, scripts that end without an end marker, bad version / compression tags
+    {
+        let qs = ["00", "01", "02", "ff", "-", "0100", "0001"];
+        let codes = [1u32, 2, 3, 4, 5, 6, 7, 8, 9, 4096];
+        let mut scripts: Vec<(String, String)> = Vec::new();
+        for (ci, c) in codes.iter().enumerate() {
+            for pos in [0usize, 1, 3] {
+                let mut v: Vec<String> = (0..pos).map(|j| format!("c{}q00", [5usize, 0, 300][(j + ci) % 3])).collect();
+                v.push(format!("e{c}"));
+                v.push("c4q01".into());
+                scripts.push(("v1.z0.f0".into(), v.join(",")));
+            }
+        }
+        for _ in 0..(if thorough { 600 } else { 60 }) {
+            let n = r.below(7) as usize;
+            let mut v: Vec<String> = (0..n).map(|_| if r.chance(1, 9) { format!("e{}", r.pick(&codes)) } else { format!("c{}q{}", r.pick(&[0usize, 1, 5, 300, 9000]), r.pick(&qs)) }).collect();
+            if r.chance(2, 3) { v.push(format!("c{}q01", r.pick(&[0usize, 3, 70]))); }
+            scripts.push(("v1.z0.f0".into(), if v.is_empty() { "-".into() } else { v.join(",") }));
+        }
+        for open in ["v0.z0.f0", "v2.z0.f0", "v255.z0.f1", "v1.z2.f0", "v1.z255.f1", "v1.z0.f1", "v1.z0.f65535"] {
+            scripts.push((open.into(), "c3q00,c2q01".into()));
+        }
+        for (k, (open, resps)) in scripts.iter().enumerate() {
+            let (srv, client) = [("tcp", "sync"), ("tcp", "async"), ("ws", "wsc")][k % 3];
+            run.peer(srv, client, ["vec", "call", "c1"][(k / 3) % 3], open, resps);
         }
     }
     // (F2) two streams open at once on one connection: isolation of sessions, ids, lookahead
